@@ -62,23 +62,30 @@ def install(w):
                         "implies(len(char) == 1 and Digit(cp(char, 0)), result == cp(char, 0) - 48)",
                         "implies(len(char) == 1 and 65 <= cp(char, 0) <= 70, result == cp(char, 0) - 55)",
                         "implies(len(char) == 1 and 97 <= cp(char, 0) <= 102, result == cp(char, 0) - 87)"],
-               props={"C01", "C09"})
+               props={"C01", "C09", "C08"})
     w.contract(f"{M}.is_unicode_scalar_value", params={"char": "str"}, returns="bool",
                requires=["len(char) == 1"],
-               ensures=["result == Scalar(cp(char, 0))"], props={"C01", "C09"})
+               ensures=["result == Scalar(cp(char, 0))"], props={"C01", "C09", "C08"})
     w.contract(f"{M}.is_supplementary_code_point", params={"body": "str", "location": "int"},
                returns="bool", requires=["0 <= location"],
                ensures=["result == (location + 1 < len(body) and HiSur(cp(body, location))"
-                        " and LoSur(cp(body, location + 1)))"], props={"C01", "C09"})
+                        " and LoSur(cp(body, location + 1)))"], props={"C01", "C09", "C08"})
     w.contract(f"{M}.read_16_bit_hex_code", params={"body": "str", "position": "int"},
                returns="int", requires=["0 <= position"],
                ensures=["result <= 0xFFFF",
                         "(result >= 0) == (position + 4 <= len(body) and Hex(cp(body, position))"
                         " and Hex(cp(body, position + 1)) and Hex(cp(body, position + 2))"
                         " and Hex(cp(body, position + 3)))"],
-               props={"C01", "C09"})
+               props={"C01", "C09", "C08"})
+    # Punctuator :: one of ! $ & ( ) ... : = @ [ ] { | }  (and `.` for schema coordinates)
+    w.define("PunctKind", "k",
+             "k == TokenKind.BANG or k == TokenKind.DOLLAR or k == TokenKind.AMP"
+             " or k == TokenKind.PAREN_L or k == TokenKind.PAREN_R or k == TokenKind.DOT"
+             " or k == TokenKind.SPREAD or k == TokenKind.COLON or k == TokenKind.EQUALS"
+             " or k == TokenKind.AT or k == TokenKind.BRACKET_L or k == TokenKind.BRACKET_R"
+             " or k == TokenKind.BRACE_L or k == TokenKind.PIPE or k == TokenKind.BRACE_R")
     w.contract(f"{M}.is_punctuator_token_kind", params={"kind": "atom:TokenKind"}, returns="bool",
-               ensures=[], props={"C01"})
+               ensures=["result == PunctKind(kind)"], props={"C01", "C09"})
 
     # ---- Lexer methods --------------------------------------------------------------------------------
     w.contract(f"{M}.Lexer.create_token",
@@ -224,13 +231,13 @@ def install(w):
     ESC_PRE = ["0 <= position < len(self.source.body)", "cp(self.source.body, position) == 92"]
     w.contract(f"{M}.Lexer.read_escaped_character", params={"position": "int"},
                returns="ntuple:EscapeSequence", requires=ESC_PRE, ensures=ESC_POST + ["result.size == 2"],
-               raises=["GraphQLSyntaxError"], modifies=[], props={"C01", "C09", "C10"})
+               raises=["GraphQLSyntaxError"], modifies=[], props={"C01", "C09", "C10", "C08"})
     w.contract(f"{M}.Lexer.read_escaped_unicode_fixed_width", params={"position": "int"},
                returns="ntuple:EscapeSequence",
                requires=ESC_PRE + ["position + 1 < len(self.source.body)",
                                    "cp(self.source.body, position + 1) == 117"],
                ensures=ESC_POST + ["result.size == 6 or result.size == 12"],
-               raises=["GraphQLSyntaxError"], modifies=[], props={"C01", "C09", "C10"})
+               raises=["GraphQLSyntaxError"], modifies=[], props={"C01", "C09", "C10", "C08"})
     w.contract(f"{M}.Lexer.read_escaped_unicode_variable_width", params={"position": "int"},
                returns="ntuple:EscapeSequence",
                requires=ESC_PRE + ["position + 2 < len(self.source.body)",
@@ -244,7 +251,7 @@ def install(w):
                                         "SameLine(body, position, position + size)",
                                         "not LT(cp(body, position + size - 1))"],
                           "variant": "max_size - size"}},
-               props={"C01", "C09", "C10"})
+               props={"C01", "C09", "C10", "C08"})
 
     w.contract(f"{M}.Lexer.read_string", params={"start": "int"}, returns="obj:Token",
                requires=["0 <= start < len(self.source.body)", "cp(self.source.body, start) == 34"],
@@ -255,7 +262,7 @@ def install(w):
                                         "not LT(cp(body, position - 1))",
                                         "SameLine(body, start, position)"],
                           "variant": "body_length - position"}},
-               props={"C01", "C09", "C10"})
+               props={"C01", "C09", "C10", "C08"})
 
     w.contract(f"{M}.Lexer.read_block_string", params={"start": "int"}, returns="obj:Token",
                requires=["0 <= start", "start + 3 <= len(self.source.body)",
@@ -284,7 +291,7 @@ def install(w):
                                         "self.line == 1 + nlt(body, start)",
                                         "self.line_start == lls(body, start)"],
                           "variant": "body_length - position"}},
-               props={"C01", "C09", "C10"})
+               props={"C01", "C08", "C09", "C10"})
 
     w.contract(f"{M}.Lexer.read_next_token", params={"start": "int"}, returns="obj:Token",
                requires=["InBody(self, start)", "not midCRLF(self.source.body, start)",
@@ -318,3 +325,32 @@ def install(w):
                           "variant": "body_length - end"}},
                props={"C01", "C09", "C10"})
 
+
+
+def install_strip(w):
+    """strip_ignored_characters (C09): per token, exactly one space is inserted when the previous
+    token added was a non-punctuator and the current one is a non-punctuator or a spread (`1...`
+    would lex as a broken number), nothing otherwise; every token but a block string is copied
+    with its source length; the flag handed to the next iteration is "this token is a
+    non-punctuator".  (Lengths only: the text of concatenations is not modelled.)"""
+    U = "graphql.utilities.strip_ignored_characters"
+    w.contract(f"{U}.strip_ignored_characters", params={"source": ("union", "str", "obj:Source")},
+               returns="str", ensures=[], raises=["GraphQLSyntaxError"], modifies=[],
+               loops={1: {"step_post": [
+                   "was_last_added_token_non_punctuator == (not PunctKind(token_kind))",
+                   "implies(token_kind != TokenKind.BLOCK_STRING, len(stripped_body) =="
+                   " at_iter_start(len(stripped_body)) + (current_token.end - current_token.start)"
+                   " + ite(at_iter_start(was_last_added_token_non_punctuator)"
+                   " and (not PunctKind(token_kind) or token_kind == TokenKind.SPREAD), 1, 0))",
+                   "implies(token_kind == TokenKind.BLOCK_STRING, len(stripped_body) >="
+                   " at_iter_start(len(stripped_body))"
+                   " + ite(at_iter_start(was_last_added_token_non_punctuator), 1, 0))"]}},
+               props={"C09"})
+
+
+_lexer_install = install
+
+
+def install(w):   # noqa: F811
+    _lexer_install(w)
+    install_strip(w)
